@@ -325,6 +325,25 @@ func genC05(t *rapid.T) c05Case {
 			vRec{Head: "cyc~0", HL: vLayout{EOL: "\n"}, Lines: []vLine{{Kind: vkEntry, Name: "cyc~1", Num: "1", L: plain}}},
 			vRec{Head: "cyc~1", HL: vLayout{EOL: "\n"}, Lines: []vLine{{Kind: vkEntry, Name: "cyc~0", Num: "2", L: plain}}})
 		c.S.Book.NoFinalNL = false
+		if rapid.Bool().Draw(t, "cyclepluschain") {
+			// the same book also holds a chain longer than any limit drawn here: two reasons to refuse it, one message
+			c.S.Book.Recs = append(c.S.Book.Recs, c11Chain("toodeep~", 12)...)
+		}
+	}
+	if rapid.IntRange(0, 7).Draw(t, "overflow") == 0 {
+		// quantities that are finite as written and overflow when multiplied out, in several recipes
+		plain := vLayout{Indent: "  ", Sep: ": ", EOL: "\n"}
+		big := "1" + strings.Repeat("0", 200)
+		c.S.Book.Recs = append(c.S.Book.Recs,
+			vRec{Head: "inf~base", HL: vLayout{EOL: "\n"}, Lines: []vLine{{Kind: vkEntry, Name: c.Element, Num: big, L: plain}}},
+			vRec{Head: "inf~bowl", HL: vLayout{EOL: "\n"}, Lines: []vLine{{Kind: vkEntry, Name: "inf~base", Num: big, L: plain}}},
+			vRec{Head: "inf~pot", HL: vLayout{EOL: "\n"}, Lines: []vLine{{Kind: vkEntry, Name: "inf~bowl", Num: "2", L: plain}, {Kind: vkEntry, Name: "inf~base", Num: "-" + big, L: plain}}})
+		c.S.Book.NoFinalNL = false
+		if len(c.S.Log.Recs) > 0 {
+			r := &c.S.Log.Recs[rapid.IntRange(0, len(c.S.Log.Recs)-1).Draw(t, "overflowday")]
+			r.Lines = append(r.Lines, vLine{Kind: vkEntry, Name: "inf~pot", Num: "1", L: plain}, vLine{Kind: vkEntry, Name: "inf~bowl", Num: "1", L: plain})
+			c.S.Log.NoFinalNL = false
+		}
 	}
 	return c
 }
